@@ -4,7 +4,7 @@
    (step index, tag, ok).  It is extracted to OCaml (volume) and also evaluated by vm_compute
    (cross-validation of the extraction).  No proofs in this file. *)
 From Coq Require Import ZArith List Bool Arith.
-From SpadeV Require Import Num.F64 Num.Decode Num.Decode2 Geom.Pred Gen.Prelude Num.ValidSpec Obs.State Obs.Spec Obs.Query Vmap.Model Check.Codes.
+From SpadeV Require Import Num.F64 Num.Decode Num.Decode2 Geom.Pred Gen.Prelude Num.ValidSpec Obs.State Obs.Spec Obs.Query Vmap.Model Cdt.SegSpec Check.Codes.
 Import ListNotations.
 
 (* ------------------------------------------------------------------ parsing the state line *)
@@ -385,22 +385,170 @@ Definition check_tryc (p n : obs) (a b : Z) (res : list Z) : list (tag * bool) :
   | _, _, _ => [(T_parse, false)]
   end.
 
-Definition check_op (c : cfg) (p : obs) (op : Z) (args res : list Z) (n : obs) : list (tag * bool) :=
+(* ------------------------------------------------------------------ comparison with an incremental reference (C10, C11) *)
+Fixpoint nat_pairs (l : list Z) : list (nat * nat) :=
+  match l with a :: b :: t => (Z.to_nat a, Z.to_nat b) :: nat_pairs t | _ => [] end.
+(* aux = ne (u v)*ne nc (u v)*nc, vertex indices refer to the state under test *)
+Definition parse_ref (aux : list Z) : option (list (nat * nat) * list (nat * nat)) :=
+  match aux with
+  | ne :: t =>
+      if (ne <? 0)%Z then None else
+      let n := Z.to_nat ne in
+      match skipn (2 * n) t with
+      | nc :: t2 =>
+          if (length t2 =? 2 * Z.to_nat nc) then Some (nat_pairs (firstn (2 * n) t), nat_pairs t2) else None
+      | [] => None
+      end
+  | [] => None
+  end.
+Definition upair_eqb (a b : nat * nat) : bool :=
+  ((fst a =? fst b) && (snd a =? snd b)) || ((fst a =? snd b) && (snd a =? fst b)).
+Definition pairs_subset (a b : list (nat * nat)) : bool := forallb (fun x => existsb (upair_eqb x) b) a.
+Definition pairs_same (a b : list (nat * nat)) : bool := pairs_subset a b && pairs_subset b a.
+Definition edge_pairs (s : obs) : list (nat * nat) := map (fun k => (org s (2 * k), dest s (2 * k))) (seq 0 (o_ne s)).
+Definition cons_pairs (s : obs) : list (nat * nat) :=
+  map (fun k => (org s (2 * k), dest s (2 * k))) (filter (fun k => flag s (2 * k)) (seq 0 (o_ne s))).
+
+(* same constraint edges as the reference; same edge set whenever the (constrained) Delaunay triangulation is unique *)
+Definition check_ref (t_edges : tag) (n : obs) (aux : option (list Z)) : list (tag * bool) :=
+  match aux with
+  | None => []
+  | Some a =>
+    match parse_ref a, obs_points n with
+    | Some (res, rcs), Some pts =>
+        [(t_edges, pairs_same (cons_pairs n) rcs && (negb (unique_b n pts) || pairs_same (edge_pairs n) res))]
+    | _, _ => []          (* reference could not be built (e.g. crossing constraints): nothing to compare *)
+    end
+  end.
+
+(* constraints after a removal: those of the previous state that do not touch the removed vertex, nothing else (by position) *)
+Definition key_pairs (s : obs) : option (list (key * key)) :=
+  match vstate_of (o_verts s) with
+  | Some vs =>
+      let ks := map fst vs in
+      Some (map (fun pr => (nth (fst pr) ks ((0,0),(0,0))%Z, nth (snd pr) ks ((0,0),(0,0))%Z)) (cons_pairs s))
+  | None => None
+  end.
+Definition kpair_eqb (a b : key * key) : bool :=
+  (key_eqb (fst a) (fst b) && key_eqb (snd a) (snd b)) || (key_eqb (fst a) (snd b) && key_eqb (snd a) (fst b)).
+Definition kpairs_same (a b : list (key * key)) : bool :=
+  forallb (fun x => existsb (kpair_eqb x) b) a && forallb (fun x => existsb (kpair_eqb x) a) b.
+Definition check_remove_cons (p n : obs) (rx ry : Z) : list (tag * bool) :=
+  match key_pairs p, key_pairs n, key_of rx ry with
+  | Some kp, Some kn, Some rk =>
+      let expected := filter (fun pr => negb (key_eqb (fst pr) rk || key_eqb (snd pr) rk)) kp in
+      [(T_remove_cons, kpairs_same expected kn)]
+  | _, _, _ => [(T_parse, false)]
+  end.
+
+(* ------------------------------------------------------------------ C04: the set-of-segments model *)
+(* decode both states and the operation's coordinates on one scale *)
+Definition joint_points (p n : obs) (extra : list Z) : option (list pnt * list pnt * list pnt) :=
+  match decode_points (coord_bits p ++ coord_bits n ++ extra) with
+  | Some all => Some (firstn (nV p) all, firstn (nV n) (skipn (nV p) all), skipn (nV p + nV n) all)
+  | None => None
+  end.
+Definition flagged_segs (s : obs) (pts : list pnt) : list seg :=
+  map (fun pr => (pos pts (fst pr), pos pts (snd pr))) (cons_pairs s).
+
+Fixpoint add_edges_by_index (verts : list pnt) (inp : list pnt) (r : list seg) (es : list (nat * nat)) : list seg :=
+  match es with
+  | [] => r
+  | (a, b) :: t => add_edges_by_index verts inp (add_constraint verts r (nth a inp (0,0)%Z) (nth b inp (0,0)%Z)) t
+  end.
+
+Definition check_segspec (c : cfg) (p n : obs) (op : Z) (args res : list Z) : list (tag * bool) :=
+  if negb (c_cdt c) then [] else
+  let simple (extra : list Z) (f : list pnt -> list pnt -> list pnt -> list seg -> option (list seg)) :=
+    match joint_points p n extra with
+    | Some (pp, np, ex) =>
+        match f pp np ex (flagged_segs p pp) with
+        | Some expected => [(T_segspec, segs_same expected (flagged_segs n np))]
+        | None => []
+        end
+    | None => [(T_parse, false)]
+    end in
+  if (op =? OP_ins)%Z || (op =? OP_insh)%Z then
+    match args, res with
+    | x :: y :: _, [r0; _] =>
+        if (r0 =? K_ok)%Z then simple [x; y] (fun _ _ ex r => match ex with [q] => Some (split_at r q) | _ => None end)
+        else simple [] (fun _ _ _ r => Some r)
+    | _, _ => []
+    end
+  else if (op =? OP_rm)%Z || (op =? OP_trm)%Z then
+    match res with
+    | [rx; ry; _] => simple [rx; ry] (fun _ _ ex r => match ex with [q] => Some (remove_vertex r q) | _ => None end)
+    | _ => []
+    end
+  else if (op =? OP_lrm)%Z then
+    match res with
+    | [_; rx; ry; _] => simple [rx; ry] (fun _ _ ex r => match ex with [q] => Some (remove_vertex r q) | _ => None end)
+    | _ => simple [] (fun _ _ _ r => Some r)
+    end
+  else if (op =? OP_addc)%Z || (op =? OP_tryc)%Z then
+    match args with
+    | [a; b] => simple [] (fun pp np _ r => Some (add_constraint np r (pos pp (Z.to_nat a)) (pos pp (Z.to_nat b))))
+    | _ => []
+    end
+  else if (op =? OP_adde)%Z then
+    match args, res with
+    | [x1; y1; _; x2; y2; _], r0 :: _ =>
+        if (r0 =? K_ok)%Z then
+          simple [x1; y1; x2; y2] (fun _ np ex r => match ex with
+                                   | [a; b] => Some (add_constraint np (split_at (split_at r a) b) a b) | _ => None end)
+        else if (r0 =? K_panic)%Z then
+          (* refused after both end points were inserted: they may have split existing constraints *)
+          simple [x1; y1; x2; y2] (fun _ _ ex r => match ex with [a; b] => Some (split_at (split_at r a) b) | _ => None end)
+        else simple [] (fun _ _ _ r => Some r)
+    | _, _ => []
+    end
+  else if (op =? OP_rmc)%Z then
+    match args with
+    | [e] => simple [] (fun pp _ _ r =>
+               let k := Z.to_nat e in Some (remove_seg r (pos pp (org p (2 * k)), pos pp (dest p (2 * k)))))
+    | _ => []
+    end
+  else if (op =? OP_clear)%Z then simple [] (fun _ _ _ _ => Some [])
+  else if (op =? OP_clone)%Z || (op =? OP_canc)%Z then simple [] (fun _ _ _ r => Some r)
+  else if (op =? OP_bulk)%Z || (op =? OP_bulks)%Z then
+    match res with r0 :: _ => if (r0 =? K_ok)%Z then simple [] (fun _ _ _ _ => Some []) else simple [] (fun _ _ _ r => Some r) | _ => [] end
+  else if (op =? OP_bulkc)%Z || (op =? OP_bulkcs)%Z then
+    match args, res with
+    | cnt :: rest, r0 :: _ =>
+        if (r0 =? K_ok)%Z then
+          let k := Z.to_nat cnt in
+          let coords := flat_map (fun t => [fst (fst t); snd (fst t)]) (triples (firstn (3 * k) rest)) in
+          match skipn (3 * k) rest with
+          | _ :: es => simple coords (fun _ np inp _ => Some (add_edges_by_index np inp [] (nat_pairs es)))
+          | [] => []
+          end
+        else simple [] (fun _ _ _ r => Some r)
+    | _, _ => []
+    end
+  else [].
+
+Definition check_op (c : cfg) (p : obs) (op : Z) (args res : list Z) (n : obs) (aux : option (list Z)) : list (tag * bool) :=
   if existsb (Z.eqb K_skip) res || existsb (Z.eqb K_panic) res || existsb (Z.eqb K_hang) res then [] else
   if (op =? OP_ins)%Z then
     match args with [x; y; d] => check_insert p n x y d res | _ => [(T_parse, false)] end
   else if (op =? OP_insh)%Z then
     match args with [x; y; d; _] => check_insert p n x y d res | _ => [(T_parse, false)] end
   else if (op =? OP_rm)%Z || (op =? OP_trm)%Z then
-    match args with [v] => check_remove p n v res | _ => [(T_parse, false)] end
+    match args with
+    | [v] => check_remove p n v res ++ check_ref T_remove n aux
+             ++ match res with [rx; ry; _] => check_remove_cons p n rx ry | _ => [] end
+    | _ => [(T_parse, false)]
+    end
   else if (op =? OP_lrm)%Z then
     match args with [x; y] => check_lrm p n x y res | _ => [(T_parse, false)] end
   else if (op =? OP_clear)%Z then
     [(T_vmap, (nV n =? 0) && (nH n =? 0) && (nF n =? 1) && (o_nc n =? 0))]
   else if (op =? OP_clone)%Z then
     [(T_vmap, obs_eqb p n)]
-  else if (op =? OP_bulk)%Z then check_bulk p n false args res
-  else if (op =? OP_bulks)%Z then check_bulk p n true args res
+  else if (op =? OP_bulk)%Z then check_bulk p n false args res ++ check_ref T_bulk_edges n aux
+  else if (op =? OP_bulks)%Z then check_bulk p n true args res ++ check_ref T_bulk_edges n aux
+  else if (op =? OP_bulkc)%Z then check_bulk p n false args res ++ check_ref T_bulk_edges n aux
+  else if (op =? OP_bulkcs)%Z then check_bulk p n true args res ++ check_ref T_bulk_edges n aux
   else if (op =? OP_valc)%Z then match args with [x] => check_valc x res | _ => [(T_parse, false)] end
   else if (op =? OP_valv)%Z then match args with [x; y] => check_valv x y res | _ => [(T_parse, false)] end
   else if (op =? OP_mit)%Z then match args with [x; y] => check_mit x y res | _ => [(T_parse, false)] end
@@ -421,7 +569,7 @@ Definition check_op (c : cfg) (p : obs) (op : Z) (args res : list Z) (n : obs) :
   else [].
 
 (* ------------------------------------------------------------------ the fold *)
-Record step := mkstep { s_op : Z; s_args : list Z; s_res : list Z; s_obs : option (list Z) }.
+Record step := mkstep { s_op : Z; s_args : list Z; s_res : list Z; s_obs : option (list Z); s_aux : option (list Z) }.
 
 Fixpoint run_steps (c : cfg) (p : obs) (k : nat) (l : list step) : list verdict :=
   match l with
@@ -429,14 +577,15 @@ Fixpoint run_steps (c : cfg) (p : obs) (k : nat) (l : list step) : list verdict 
   | st :: t =>
     match s_obs st with
     | None =>
-        map (fun v => (k, fst v, snd v)) (check_op c p (s_op st) (s_args st) (s_res st) p)
+        map (fun v => (k, fst v, snd v)) (check_op c p (s_op st) (s_args st) (s_res st) p (s_aux st))
         ++ run_steps c p (S k) t
     | Some raw =>
       match parse_obs raw with
       | None => [(k, T_parse, false)]
       | Some n =>
         map (fun v => (k, fst v, snd v))
-            (state_checks c n ++ check_op c p (s_op st) (s_args st) (s_res st) n)
+            (state_checks c n ++ check_op c p (s_op st) (s_args st) (s_res st) n (s_aux st)
+             ++ (if existsb (Z.eqb K_skip) (s_res st) || existsb (Z.eqb K_hang) (s_res st) then [] else check_segspec c p n (s_op st) (s_args st) (s_res st)))
         ++ run_steps c n (S k) t
       end
     end
